@@ -19,6 +19,7 @@ import Rmk.Impl.UintExtra
 import Rmk.Impl.DeserWork
 import Rmk.Impl.DeserTree
 import Rmk.Proofs.DeserWorkBound
+import Rmk.Proofs.NavVal
 import Driver.Sexp
 namespace Driver
 open Rmk
@@ -445,21 +446,10 @@ def runTree (n : Node) (cmds : List Sexp) : Option String := do
   let outs ← cmds.zipIdx.mapM fun (c, k) => runTreeCmd n k c
   pure (join (kv "root" (hexOf (n.root H)) :: outs))
 
-/-- the sub-value (with its type) that a key sequence addresses IN A VALUE: element indices must be below the actual
-    length; pseudo keys and union steps are not view navigations (`navigate_view` has no such step) -/
-def navVal : Ty → Val → List Key → Option (Ty × Val)
-  | t, v, [] => some (t, v)
-  | .vector et _, .seq vs, .idx i :: rest => (vs[i]?).bind fun x => navVal et x rest
-  | .list et _, .seq vs, .idx i :: rest => (vs[i]?).bind fun x => navVal et x rest
-  | .container fs, .seq vs, .idx i :: rest =>
-    match fs[i]?, vs[i]? with
-    | some ft, some x => navVal ft x rest
-    | _, _ => none
-  | .bitvector _, .bits bs, [.idx i] => (bs[i]?).map fun b => (.bool, .num (if b then 1 else 0))
-  | .bitlist _, .bits bs, [.idx i] => (bs[i]?).map fun b => (.bool, .num (if b then 1 else 0))
-  | .bytevector _, .bytes bs, [.idx i] => (bs[i]?).map fun b => (.uint 1, .num b.toNat)
-  | .bytelist _, .bytes bs, [.idx i] => (bs[i]?).map fun b => (.uint 1, .num b.toNat)
-  | _, _, _ => none
+/-- value-dependent navigation: `NavVal.navVal` (Rmk/Proofs/NavVal.lean) — `PathAddress.subVal`, the value-side
+    navigation of the C08 theorems, restricted to element / field index steps; `NavVal.navVal_addresses`: the view found
+    there has the root of the node at the static index -/
+def navVal : Ty → Val → List Key → Option (Ty × Val) := NavVal.navVal
 
 def runPath (t : Ty) (v : Option Val) (keys : List Key) : String :=
   let ig := Impl.pathGindex t keys
